@@ -301,9 +301,9 @@ Lemma facts_ok_inv F : facts_ok F = true ->
   sniff_chain_ok F = true /\ ext_chain_ok F = true /\ cont_chain_ok F = true /\ containers_vs_codecs_ok F = true
   /\ adapters_ok F = true /\ f_writer_passthrough F = true /\ f_path_fallback_sniffs F = true
   /\ f_stdin_fallback_sniffs F = true /\ f_private_codec_state F = true /\ header_ok F = true /\ flag_deps_ok F = true
-  /\ f_position_preserved F = true.
+  /\ f_position_preserved F = true /\ spellings_ok F = true.
 Proof.
-  unfold facts_ok. intros H. do 11 (apply andb_prop in H; destruct H as [H ?H]). repeat split; assumption.
+  unfold facts_ok. intros H. do 12 (apply andb_prop in H; destruct H as [H ?H]). repeat split; assumption.
 Qed.
 
 Lemma sniff_chain_ok_inv F : sniff_chain_ok F = true ->
@@ -314,6 +314,43 @@ Proof. unfold sniff_chain_ok. intros H. do 2 (apply andb_prop in H; destruct H a
 Lemma ext_chain_ok_inv F : ext_chain_ok F = true ->
   forallb ext_branch_ok (f_ext_chain F) = true /\ covers eb_codec (f_ext_chain F) = true.
 Proof. unfold ext_chain_ok. intros H. apply andb_prop in H. exact H. Qed.
+
+(* ---------- the spelling of "no url" ---------- *)
+
+Lemma ourl_eqb_eq a b : ourl_eqb a b = true <-> a = b.
+Proof.
+  destruct a as [x|], b as [y|]; cbn; split; intros H; try reflexivity; try discriminate.
+  - apply beqb_eq in H. subst. reflexivity.
+  - inversion H. apply beqb_refl.
+Qed.
+
+Lemma ourl_list_eqb_eq a b : ourl_list_eqb a b = true -> a = b.
+Proof.
+  revert b; induction a as [|x a IH]; intros [|y b]; cbn; intros H; try reflexivity; try discriminate.
+  apply andb_prop in H. destruct H as [H1 H2]. apply ourl_eqb_eq in H1. rewrite H1, (IH b H2). reflexivity.
+Qed.
+
+Lemma spellings_exact F : facts_ok F = true -> f_no_url_spellings F = std_no_url.
+Proof.
+  intros HF. destruct (facts_ok_inv F HF) as (_ & _ & _ & _ & _ & _ & _ & _ & _ & _ & _ & _ & Hs).
+  apply ourl_list_eqb_eq. exact Hs.
+Qed.
+
+(* omitted / None, "" and "-" all normalise to the same source; every other url stays a url *)
+Lemma normalise_no_url F : facts_ok F = true -> forall u, In u std_no_url -> normalise_source F u = SrcStream.
+Proof.
+  intros HF u Hu. unfold normalise_source. rewrite (spellings_exact F HF).
+  replace (existsb (ourl_eqb u) std_no_url) with true; [reflexivity|].
+  symmetry. apply existsb_exists. exists u. split; [exact Hu|apply ourl_eqb_eq; reflexivity].
+Qed.
+
+Lemma normalise_url F : facts_ok F = true -> forall x, x <> [] -> x <> B "-" -> normalise_source F (Some x) = SrcUrl x.
+Proof.
+  intros HF x H1 H2. unfold normalise_source. rewrite (spellings_exact F HF).
+  replace (existsb (ourl_eqb (Some x)) std_no_url) with false; [reflexivity|].
+  symmetry. unfold std_no_url. cbn [existsb ourl_eqb]. destruct (beqb x []) eqn:E1; [apply beqb_eq in E1; contradiction|].
+  destruct (beqb x (B "-")) eqn:E2; [apply beqb_eq in E2; contradiction|]. reflexivity.
+Qed.
 
 (* ---------- open_stream ---------- *)
 
